@@ -4,6 +4,9 @@ import (
 	"fmt"
 	"os"
 	"sort"
+	"strconv"
+	"sync"
+	"sync/atomic"
 
 	"github.com/NVIDIA/KAI-scheduler/pkg/scheduler/api/pod_info"
 	"github.com/NVIDIA/KAI-scheduler/pkg/scheduler/api/pod_status"
@@ -51,6 +54,10 @@ type random struct {
 	// evicting one of them again puts a second evict entry of the pod behind a stale one in the same log
 	unevicted map[string]bool
 	done      bool
+	// what-if plans: commands queued to be issued next (checkpoint; place a gpu-memory pod on a node; roll back /
+	// discard; place it on a node whose GPUs have another memory size; commit)
+	plan    []func() *cmdSpec
+	whatifs int
 }
 
 func (g *random) wf() bool { return g.isWf }
@@ -132,6 +139,18 @@ func (g *random) next(w *world, step int) *cmdSpec {
 	if g.sealed {
 		g.reset()
 		return &cmdSpec{Kind: "commit"}
+	}
+	for len(g.plan) > 0 {
+		f := g.plan[0]
+		g.plan = g.plan[1:]
+		if c := f(); c != nil {
+			return c
+		}
+	}
+	if g.isWf && g.whatifs < 3 && len(g.cps) < 4 && r.Chance(1, 5) {
+		if c := g.planWhatIf(w); c != nil {
+			return c
+		}
 	}
 	// candidates from the real state
 	var pend, act, evd, term, placed []string
@@ -268,11 +287,78 @@ func (g *random) reset() {
 	g.unevicted = map[string]bool{}
 }
 
+// planWhatIf: when the cluster has nodes whose GPUs differ in memory and a Pending gpu-memory pod, queue
+// [Checkpoint; place the pod on node A; Rollback] or [place on A; Discard], then [place the pod on node B of another
+// GPU memory size], then mostly Commit - the shape of an abandoned scenario followed by the decision that stands.
+// Returns the first command of the plan (nil: no such pod / nodes).
+func (g *random) planWhatIf(w *world) *cmdSpec {
+	r := g.r
+	var pods []string
+	for _, name := range w.pods {
+		if t := w.pod(name); t != nil && t.Status == pod_status.Pending && t.IsMemoryRequest() {
+			pods = append(pods, name)
+		}
+	}
+	if len(pods) == 0 {
+		return nil
+	}
+	pod := u.Pick(r, pods)
+	a := u.Pick(r, w.nodes)
+	var others []string
+	for _, n := range w.nodes {
+		if gpuMemOf(w.c, n) != gpuMemOf(w.c, a) {
+			others = append(others, n)
+		}
+	}
+	if len(others) == 0 {
+		return nil
+	}
+	b := u.Pick(r, others)
+	g.whatifs++
+	pending := func() bool { t := w.pod(pod); return t != nil && t.Status == pod_status.Pending }
+	placeOn := func(node string) func() *cmdSpec {
+		return func() *cmdSpec {
+			if !pending() {
+				return nil
+			}
+			return g.placeOn(w, pod, node)
+		}
+	}
+	commit := func() *cmdSpec {
+		if r.Chance(1, 4) {
+			return nil
+		}
+		g.reset()
+		return &cmdSpec{Kind: "commit"}
+	}
+	if r.Chance(1, 4) && len(g.cps) == 0 && !g.hasEvict {
+		// abandon by Discard
+		g.plan = []func() *cmdSpec{func() *cmdSpec { g.reset(); return &cmdSpec{Kind: "discard"} }, placeOn(b), commit}
+		return g.placeOn(w, pod, a)
+	}
+	cpv := int(w.stmt.Checkpoint())
+	g.cps = append(g.cps, cpv)
+	g.plan = []func() *cmdSpec{placeOn(a),
+		func() *cmdSpec {
+			for i := len(g.cps) - 1; i >= 0; i-- {
+				if g.cps[i] == cpv {
+					g.cps = g.cps[:i+1]
+					return &cmdSpec{Kind: "rollback", Cp: cpv}
+				}
+			}
+			return nil
+		}, placeOn(b), commit}
+	return &cmdSpec{Kind: "checkpoint"}
+}
+
 // place a Pending pod: Allocate or Pipeline on some node
 func (g *random) place(w *world, name string) *cmdSpec {
+	return g.placeOn(w, name, u.Pick(g.r, w.nodes))
+}
+
+func (g *random) placeOn(w *world, name, node string) *cmdSpec {
 	r := g.r
 	t := w.pod(name)
-	node := u.Pick(r, w.nodes)
 	c := &cmdSpec{Pod: name, Node: node}
 	if isShared(t) {
 		c.HasGroups = true
@@ -534,6 +620,14 @@ func heteroCluster(r *u.Rng) cycle.Cluster {
 
 // ---- entry point ---------------------------------------------------------------------------------
 
+// workers: number of cases run at the same time (C13_WORKERS, default 6; 1 = sequential).
+func workers() int {
+	if v, err := strconv.Atoi(os.Getenv("C13_WORKERS")); err == nil && v >= 1 {
+		return v
+	}
+	return 6
+}
+
 // probeConvertShift (C13_PROBE=convert-shift, run by hand): ConvertAllAllocatedToPipelined removes allocate entries
 // from the log without renumbering the undo entries behind them. Not issued by the actions (the allocate action
 // converts statements that hold no eviction), therefore outside wf and outside the generated streams: the commit
@@ -593,15 +687,64 @@ func Run(dir string, seed uint64, n int, tier string) error {
 			for k, v := range res.reUnevictThen {
 				out.CountN("second-uneviction-then-"+k, v)
 			}
+			if res.erased {
+				out.Count("erasure:programs-run-twice:" + stream)
+				out.CountN("erasure:commands-dropped", res.erasedDropped)
+				out.CountN("erasure:commands-kept", res.erasedKept)
+				if res.erasedDropped > 0 {
+					out.Count("erasure:programs-with-dropped-commands:" + stream)
+				}
+			}
+			if res.erasedSkip != "" {
+				out.Count("erasure:skipped(" + res.erasedSkip + "):" + stream)
+			}
+			if res.heteroReplace != "" {
+				out.Count("erasure:gpu-memory-pod-placed-on-other-gpu-memory-size-after-abandoned-placement(" + res.heteroReplace + "):" + stream)
+			}
+			if res.staleCommitted > 0 {
+				out.CountN("erasure:evicted-shared-pods-keeping-gpu-groups-of-an-abandoned-placement-after-commit", res.staleCommitted)
+			}
 		}
 	}
-	for i, k := range corpus() {
+	// the cases are independent sessions: run them on a few workers (a session start costs a 100 ms informer wait),
+	// emit in order
+	cycle.Build(cycle.Cluster{Nodes: []core.NodeSpec{node("n1", 1)}, Queues: []cycle.Queue{{Name: "q1", Deserved: 1, OverQuota: 1, Priority: 100}}})
+	parallel := func(m int, f func(i int) result) []result {
+		out := make([]result, m)
+		var wg sync.WaitGroup
+		next := int64(-1)
+		for k := 0; k < workers(); k++ {
+			wg.Add(1)
+			go func() {
+				defer wg.Done()
+				for {
+					i := int(atomic.AddInt64(&next, 1))
+					if i >= m {
+						return
+					}
+					out[i] = f(i)
+				}
+			}()
+		}
+		wg.Wait()
+		return out
+	}
+	cps := corpus()
+	for i, res := range parallel(len(cps), func(i int) result {
+		k := cps[i]
 		res := runCase(k.c, k.fails, &scripted{cmds: k.cmds, isWf: k.wf}, 100)
 		res.label = k.name + " " + res.label
+		return res
+	}) {
 		add(res, "corpus")
 		_ = i
 	}
-	for i := 0; i < n; i++ {
+	type gen struct {
+		res    result
+		stream string
+	}
+	gens := make([]gen, n)
+	parallel(n, func(i int) result {
 		r := root.Fork(uint64(i))
 		var c cycle.Cluster
 		switch r.Intn(3) {
@@ -625,29 +768,42 @@ func Run(dir string, seed uint64, n int, tier string) error {
 		if !g.isWf {
 			stream = "nonwf"
 		}
-		add(res, stream)
+		gens[i] = gen{res, stream}
+		return res
+	})
+	for i, x := range gens {
+		add(x.res, x.stream)
 		if i < 3 {
-			out.Sample(res.label)
+			out.Sample(x.res.label)
 		}
 	}
 	// real cycles: at most one call of each kind per pod
 	nc := n / 3
-	for i := 0; i < nc; i++ {
+	type cyc struct {
+		term, label string
+		st          map[string]int
+	}
+	cycs := make([]cyc, nc)
+	parallel(nc, func(i int) result {
 		r := root.Fork(uint64(5000000 + i))
 		c := cycle.Gen(r)
 		term, label, st := cycle.Emit(c)
-		out.Add("(KCycle "+term+")", label)
+		cycs[i] = cyc{term, label, st}
+		return result{}
+	})
+	for _, x := range cycs {
+		out.Add("(KCycle "+x.term+")", x.label)
 		out.Count("cycles")
 		calls := 0
-		for k, v := range st {
+		for k, v := range x.st {
 			out.CountN("cycle-"+k, v)
 			calls += v
 		}
 		if calls > 0 {
-			out.NonTrivial(label)
+			out.NonTrivial(x.label)
 		}
 	}
-	out.Stats["rule"] = "command programs (<= 60 commands: Evict / Pipeline / Allocate / Unevict / Checkpoint / Rollback / Discard / Commit / ConvertAllAllocatedToPipelined, nested checkpoints, evict-then-pipeline of the same pod to the same devices / other devices of the node / another node, re-eviction of a pod that was un-evicted earlier in the same statement (evict, un-evict, evict, un-evict ... of one pod by Unevict and by Pipeline onto its own node, then Commit / Rollback / Discard; counted in the distribution), Evict applied to pods that are already Releasing - evicted earlier by the same statement, by an earlier statement of the program, or terminating in the snapshot - as a legal command of the well-formed stream (weight 6 / 4 of ~35; one time in three Statement.Evict is handed a copy of the pod taken when the session was built, whose Status does not follow the statement, as the scenario solvers do; followed by un-evict / rollback / discard / commit; counted as evict-of-releasing-pod:* in the distribution), fractional, multi-fraction, gpu-memory, whole-GPU and CPU-only pods, Cache.Bind / Cache.Evict failures in 1/4 of the programs) run on the real framework.Statement over sessions from cycle.Build; 5/6 follow the status preconditions (wf), 1/6 ignore them (nonwf: run and compared with the model, not monitored); plus real scheduling cycles for the at-most-once clause. Non-trivial = a program with a rollback or discard that undoes at least two operations of different kinds, or a cycle that issued a call; distinct by full program."
-	out.Stats["queue_usage_observable"] = "Session.QueueAllocatedResources (Allocated only, whole GPUs once >= 1); AllocatedNotPreemptible has no exported reader and is not compared"
+	out.Stats["rule"] = "command programs (<= 60 commands: Evict / Pipeline / Allocate / Unevict / Checkpoint / Rollback / Discard / Commit / ConvertAllAllocatedToPipelined, nested checkpoints, evict-then-pipeline of the same pod to the same devices / other devices of the node / another node, re-eviction of a pod that was un-evicted earlier in the same statement (evict, un-evict, evict, un-evict ... of one pod by Unevict and by Pipeline onto its own node, then Commit / Rollback / Discard; counted in the distribution), Evict applied to pods that are already Releasing - evicted earlier by the same statement, by an earlier statement of the program, or terminating in the snapshot - as a legal command of the well-formed stream (weight 6 / 4 of ~35; one time in three Statement.Evict is handed a copy of the pod taken when the session was built, whose Status does not follow the statement, as the scenario solvers do; followed by un-evict / rollback / discard / commit; counted as evict-of-releasing-pod:* in the distribution), fractional, multi-fraction, gpu-memory, whole-GPU and CPU-only pods, Cache.Bind / Cache.Evict failures in 1/4 of the programs) run on the real framework.Statement over sessions from cycle.Build; 5/6 follow the status preconditions (wf), 1/6 ignore them (nonwf: run and compared with the model, not monitored); every well-formed program with a Rollback or Discard is ALSO run without the commands its rollbacks / discards undo (and without the Checkpoint / Rollback / Discard commands) on a second session built from the same cluster, under the same failure oracle (erasure clause: Cache calls of every Commit with all arguments - Bind: node, GPU groups, received resource type, device count, portion, GPU memory, charged quantities; Evict: pod and metadata; TaskPipelined: pod, node, groups - and the final projections with every pod's accepted resources and the queue usage the allocate / deallocate events carried must agree; distribution keys erasure:*); on clusters whose nodes have GPUs of different memory sizes the generator plans [checkpoint; place a gpu-memory pod on node A; rollback | place; discard] then [place it on a node B of another GPU memory size; commit] (at most three per program, counted as erasure:gpu-memory-pod-placed-on-other-gpu-memory-size-after-abandoned-placement), corpus E1..E10 hold the scenario of seeded/C13-2 (8000 / 16000 MiB GPUs, 4000 MiB pod) by Allocate, Pipeline, Discard, nested, with ConvertAllAllocatedToPipelined and with a refused Bind; plus real scheduling cycles for the at-most-once clause. The cases are independent sessions and run on C13_WORKERS (default 6) workers, emitted in order. Non-trivial = a program with a rollback or discard that undoes at least two operations of different kinds, or a cycle that issued a call; distinct by full program."
+	out.Stats["queue_usage_observable"] = "Session.QueueAllocatedResources (Allocated only, whole GPUs once >= 1); AllocatedNotPreemptible has no exported reader and is not compared; the erasure clause also compares, per queue, the exact net amount the allocate / deallocate events of the session carried (quantified AcceptedResource of the event's task, read through an own event handler registered after the plugins')"
 	return out.Flush()
 }
